@@ -359,3 +359,94 @@ k_c10_range_step!(k_c10_range_step_u16_u32_p12, u16, u32, u16, 12);
 k_c10_range_step!(k_c10_range_step_u16_u32_p16, u16, u32, u16, 16);
 k_c10_range_step!(k_c10_range_step_u32_u64_p24, u32, u64, u32, 24);
 k_c10_range_step!(k_c10_range_step_u32_u64_p32, u32, u64, u32, 32);
+
+/// C07 `c07_range_seek`: snapshots `(pos, state)` taken from the encoder at every symbol boundary
+/// (also while words are held back) are handed to a seekable decoder over the finished data (the
+/// library's `Cursor` over a slice); from any snapshot, in any order, twice, decoding yields exactly
+/// the symbols after that point; the final snapshot leaves the decoder possibly-exhausted; positions
+/// beyond the data are refused.
+macro_rules! k_c07_range_seek {
+    ($name:ident, $W:ty, $S:ty, $Pr:ty, $P:expr, $K:expr) => {
+        #[no_mangle]
+        pub extern "C" fn $name(lower: $S, range: $S, fresh: u32, cuts: &[$Pr; 2 * $K], syms: &[u8; $K], i1: u32, i2: u32) -> u32 {
+            use constriction::backends::Cursor;
+            const NQ: usize = 2 * $K + 4;
+            if i1 as usize > $K || i2 as usize > $K || fresh > 1 {
+                return 1;
+            }
+            let st = if fresh == 1 {
+                RangeCoderState::<$W, $S>::default()
+            } else {
+                match RangeCoderState::<$W, $S>::new(lower, range) {
+                    Ok(s) => s,
+                    Err(_) => return 1,
+                }
+            };
+            if fresh == 0 && (lower.wrapping_add(range) <= lower || range == <$S>::MAX) {
+                return 1;
+            }
+            let mut ms = [Cuts::<$Pr, $P> { c1: 1, c2: 2 }; $K];
+            let mut i = 0;
+            while i < $K {
+                ms[i] = Cuts::<$Pr, $P> { c1: cuts[2 * i], c2: cuts[2 * i + 1] };
+                if !ms[i].valid() || syms[i] > 2 {
+                    return 1;
+                }
+                i += 1;
+            }
+            let q = ArrQueue::<$W, NQ> { words: [0; NQ], len: 0, rpos: 0 };
+            let mut enc = RangeEncoder::<$W, $S, _>::from_raw_parts(q, st, EncoderSituation::Normal);
+            let mut snaps = [enc.pos(); $K + 1];
+            let mut i = 0;
+            while i < $K {
+                if enc.encode_symbol(syms[i], ms[i]).is_err() {
+                    return 2;
+                }
+                snaps[i + 1] = enc.pos();
+                i += 1;
+            }
+            let q = match enc.into_compressed() {
+                Ok(q) => q,
+                Err(_) => return 3,
+            };
+            let data: &[$W] = &q.words[..q.len];
+            let mut dec = match RangeDecoder::<$W, $S, _>::with_backend(Cursor::new_at_write_beginning(data)) {
+                Ok(d) => d,
+                Err(_) => return 8,
+            };
+            // two seeks in arbitrary order
+            let mut round = 0;
+            while round < 2 {
+                let from = if round == 0 { i1 as usize } else { i2 as usize };
+                if dec.seek(snaps[from]).is_err() {
+                    return 5;
+                }
+                let mut i = from;
+                while i < $K {
+                    match dec.decode_symbol(ms[i]) {
+                        Ok(d) if d == syms[i] => {}
+                        Ok(_) => return 4,
+                        Err(_) => return 9,
+                    }
+                    i += 1;
+                }
+                if !dec.maybe_exhausted() {
+                    return 10;
+                }
+                round += 1;
+            }
+            // a position beyond the data is refused
+            if dec.seek((q.len + 1, snaps[0].1)).is_ok() {
+                return 6;
+            }
+            0
+        }
+    };
+}
+k_c07_range_seek!(k_c07_range_seek_k1_u8_u16_p4, u8, u16, u8, 4, 1);
+k_c07_range_seek!(k_c07_range_seek_k1_u8_u16_p8, u8, u16, u8, 8, 1);
+k_c07_range_seek!(k_c07_range_seek_k1_u16_u32_p12, u16, u32, u16, 12, 1);
+k_c07_range_seek!(k_c07_range_seek_k1_u32_u64_p24, u32, u64, u32, 24, 1);
+k_c07_range_seek!(k_c07_range_seek_k2_u8_u16_p4, u8, u16, u8, 4, 2);
+k_c07_range_seek!(k_c07_range_seek_k2_u8_u16_p8, u8, u16, u8, 8, 2);
+k_c07_range_seek!(k_c07_range_seek_k2_u16_u32_p12, u16, u32, u16, 12, 2);
